@@ -5,6 +5,11 @@ HERE = os.path.dirname(os.path.dirname(os.path.abspath(__file__)))
 BASE = ("Lean 4.33 kernel; axioms propext/Classical.choice/Quot.sound only (audited by #print axioms on every run); "
         "the model is hand-written and tied to /repo's working tree by a differential run of the real C++ against the compiled Lean model on every run; ")
 CHECKS = {
+ "C01": dict(
+    text="Lean theorems (Props/C01.lean): the legal-move oracle is exactly the legality predicate of the executable FIDE specification; soundness of the acceptor genCheck (if it accepts the real generator's dump for a position then the pseudo-legal list, the isLegal verdicts, removeIllegal, givesCheck, evasions, captures and captures-and-checks have every property C01 asks for, without duplicates); geometric core of the king-ray shortcut. The acceptor is run on the real MoveGen output for every generated position; attack/direction/between tables are compared with the ray-walk definition (exhaustively in thorough).",
+    note=BASE + "the rules of chess are the trusted text Chess/Spec.lean (perft-validated); the algorithms of moveGen.cpp themselves are not modelled (only their outputs are judged, per position); capture/check classes exclude rook/bishop under-promotions (deliberately omitted by the code).",
+    technique="Lean 4 proof (spec oracle + acceptor soundness) + per-position acceptance of the real generator's output + exhaustive table comparison",
+    design="6/C01"),
  "C08": dict(
     text="Lean theorems (Props/C08.lean): bucket index aligned and in range for every size >= 512 and every 64-bit key; field layout disjoint and lossless; xor validation makes any validating pair of words bit-identical to one unit record (relaxed-atomic over-approximation); ply shift exact; hash buckets disjoint from the resident-tablebase bytes; insert writes only inside its bucket. The universally quantified part is proved; the tie to the C++ is a differential run.",
     note=BASE + "no 64-bit key/xor coincidences (explicit hypothesis); relaxed atomics modelled as 'a load returns some previously written value of that word'; harness reads private members.",
